@@ -308,3 +308,73 @@ def check_legacy(case):
 
 PARTS.append(Part("legacy-gate-trailing-text", check=check_legacy, strategy=lambda: dp.cases(build_legacy, size=64),
                   n={"quick": 6000, "thorough": 100000}, max_discard=0.3))
+
+
+# ------------------------------------------------------------------ "in every other case ... no project file is changed", commit on
+
+from harness import fakevcs as _fv  # noqa: E402
+
+BAD_TEMPLATES = ["release {version}", "v{new_version", "{0} {new_version}", "done }", "{old_version.major}", "{ticket} NEW", "{}", "{new_version!x}"]
+
+
+def build_tmpl(d):
+    legacy = d.chance(1, 5)
+    if legacy:
+        spec, flags, date = projgen.gen_legacy_project(d, max_files=2)
+    else:
+        nodes, state, old = grammar.gen_pattern_and_state(d, safe_seps=True)
+        if nodes is None:
+            return {"discard": state}
+        spec = projgen.gen_project(d, nodes, state, pep_shaped=False, max_files=2, max_patterns=2, regimes=["lf", "crlf"])
+        spec["legacy"] = False
+        flags, date = projgen.gen_bump(d, nodes, state)
+    return {"spec": spec, "flags": flags, "date": date, "where": d.choice(["-c", "--tag-message", "cfg-commit", "cfg-tag"]),
+            "template": d.choice(BAD_TEMPLATES), "tag": d.bool(), "vcs": d.choice(["git", "git", "hg"])}
+
+
+def check_tmpl(case):
+    """a commit / tag message template that cannot be rendered: whatever bumpver says, a non-zero exit must leave every file
+    as it was and must not have issued a mutating VCS command"""
+    if "discard" in case:
+        return discard(case["discard"])
+    spec = case["spec"]
+    state = spec["state"]
+    if not spec["legacy"] and projgen.construction_ok(spec, state):
+        return discard("construction-self-check")
+    flags = dict(case["flags"])
+    flags.pop("pin_date", None)
+    flags["date"] = case["date"]
+    args = bv.flag_args(flags)
+    options = {"commit": True, "tag": case["tag"], "push": False}
+    if case["where"] == "cfg-commit":
+        options["commit_message"] = case["template"]
+    elif case["where"] == "cfg-tag":
+        options["tag_message"] = case["template"]
+    else:
+        args += [case["where"], case["template"]]
+    tmp = tempfile.mkdtemp(prefix="c01t_")
+    fvdir = tempfile.mkdtemp(prefix="c01tfv_")
+    try:
+        projgen.materialize(spec, tmp, state, options)
+        fv = _fv.FakeVCS(tmp, case["vcs"], state_dir=fvdir)
+        fv.set("status", "")
+        before = projgen.snapshot(tmp)
+        res = bv.run(["update", "--no-fetch"] + args, cwd=tmp, env=fv.env(), today=dt.date.fromisoformat(case["date"]))
+        after = projgen.snapshot(tmp)
+        sig = {"where": case["where"], "legacy": spec["legacy"], "vcs": case["vcs"]}
+        detail = {"args": args, "options": options, "res": res.summary(500)}
+        if res.exit == 0:
+            return ok(nt=False, classes=("template-accepted",))
+        if after != before:
+            return viol("nonzero-exit-but-files-changed:message-template", sig, dict(detail, changed=projgen.diff_snap(before, after)))
+        bad = [rec for rec in fv.records() if _fv.kind_of(rec) in _fv.MUTATING]
+        if bad:
+            return viol("nonzero-exit-but-vcs-changed:message-template", sig, dict(detail, log=bad))
+        return ok(nt=True, classes=("unrenderable-template-rejected-untouched",))
+    finally:
+        shutil.rmtree(tmp, ignore_errors=True)
+        shutil.rmtree(fvdir, ignore_errors=True)
+
+
+PARTS.append(Part("failed-update-with-vcs-untouched", check=check_tmpl, strategy=lambda: dp.cases(build_tmpl, size=600),
+                  n={"quick": 1600, "thorough": 40000}, max_discard=0.1))
